@@ -1495,6 +1495,13 @@ def render_harness():
                 w = 32 if path == "bits_to_base" else 8
                 return Int(w, False, bits=[TOP] * w, tags=frozenset({t}), kind="char" if path == "bits_to_base" else "int")
             name = path.split("::")[-1]
+            if name in ("from_utf8", "from_utf8_unchecked") and len(args) == 1 and isinstance(args[0], Ref):
+                # bytes that are all letters of bases (table results) are valid UTF-8
+                from .models import seq_of
+                sq = seq_of(it, args[0])
+                if sq is not None and all(isinstance(e, Int) and (any(x.startswith("r:") for x in tags_of(e)) or (e.is_conc() and e.val < 128))
+                                          for e in sq[0].elems[sq[1]:sq[1] + sq[2]]):
+                    return Adt("std::result::Result", 0, [args[0]]) if name == "from_utf8" else args[0]
             if path.startswith("core::fmt::Formatter") or path.startswith("std::fmt::Formatter"):
                 if name == "write_fmt" and len(args) == 2 and isinstance(args[1], FmtArgs):
                     self.emit(it, args[1])
@@ -1530,8 +1537,16 @@ def render_harness():
 
         def render_arg(self, it, a):
             v = a.val
+            last = None
             while isinstance(v, Ref):
+                last = v
                 v = it.read(v.cell, v.path)
+            if isinstance(v, (Arr, VecV)) and last is not None and (last.off or last.len is not None):
+                # a sub-slice (&buf[..n]): only its own elements are written
+                n_ = last.len if last.len is not None else len(v.elems) - last.off
+                v = VecV(list(v.elems[last.off:last.off + n_]))
+            elif isinstance(v, Arr):
+                v = VecV(list(v.elems))
             if isinstance(v, Int):
                 t = [x for x in tags_of(v) if x.startswith("r:")]
                 if t:
@@ -1547,7 +1562,7 @@ def render_harness():
                         out += "<%s>" % t[0] if t else "\u0001<untagged %r>" % (e,)
                     if a.kind == "debug":
                         # Debug of a String / str is the quoted text (letters need no escape), of a Vec the bracketed list
-                        is_text = isinstance(v, Adt) or all(isinstance(e, Int) and e.kind == "char" for e in el)
+                        is_text = isinstance(v, Adt) or all(isinstance(e, Int) and e.kind == "char" for e in el) or getattr(last, "is_str", False)
                         return '"%s"' % out if is_text else "\u0001<Debug of a vector>"
                     return out
             return WriterOracles.render_arg(self, it, FmtArg(a.kind, v) if isinstance(v, Int) else a)
@@ -2034,6 +2049,37 @@ def kmer_default_lemmas(F, rep, tystr, which=None, rule="L-default"):
                              "in order)" % (len(el), badj, badj, K), witness={"kind": "render", "position": badj, "got": repr(el[badj])[:200] if badj < len(el) else None})
         guarded(rep, rule, "%s/to_string" % tag, "to_string", f)
 
+    if want("to_string"):
+        # {:?} (and {} where implemented): exactly the K letters of bases 0..K, in order
+        for trn in ("Debug", "Display"):
+            ikey = "<%s as std::fmt::%s>::fmt" % (tystr, trn)
+            if ikey not in F.insts:
+                if trn == "Debug":
+                    rep.inconclusive(rule, "%s/%s" % (tag, trn), "no monomorphic instance %s in the driver's facts" % ikey)
+                continue
+
+            def f(ikey=ikey, trn=trn):
+                h = render_harness()()
+                run_inst(F, ikey, [Ref(Cell(kt.sym("s"), "self")), Ref(Cell(Opaque("Formatter", {"fmt"}), "f"))], h)
+                rep.evaluations += 1
+                text = "".join(h.out)
+                wtext = ""
+                for j in range(K):
+                    hi, lo = kt.lane_bits(j)
+                    wtext += "<r:%s|%s>" % (bv.t_str(S[lo]), bv.t_str(S[hi]))
+                k_ = "%s/%s" % (tag, trn)
+                if h.bad or "\u0001" in text:
+                    rep.inconclusive(rule, k_, "%s: %s" % (trn, h.bad[0] if h.bad else text[:120]))
+                elif text == wtext:
+                    rep.holds(rule, k_, "{%s} writes the letters of bases 0..K in order and nothing else" % (":?" if trn == "Debug" else ""))
+                else:
+                    got = re.findall(r"<r:[^>]*>|.", text)
+                    wl = re.findall(r"<r:[^>]*>", wtext)
+                    badj = next((j for j in range(min(len(got), len(wl))) if got[j] != wl[j]), min(len(got), len(wl)))
+                    rep.violated(rule, k_, "%s of the k-mer writes %d symbols; symbol %d is %s, specified: the letter of base %d (K = %d letters in order)" % (
+                        trn, len(got), badj, (got[badj] if badj < len(got) else "missing")[:60], badj, K), witness={"kind": "render", "position": badj})
+            guarded(rep, rule, "%s/%s" % (tag, trn), trn, f)
+
     if want("bulk"):
         for meth, mk in (("kmers_from_bytes", lambda n: byte_seq("a", n)), ("kmers_from_ascii", ascii_bytes)):
             for n in (max(K - 1, 0), K, K + 2):
@@ -2276,7 +2322,8 @@ def kmer_iter_e2e_lemmas(F, rep, rule="L-iter"):
             return spec
         for iname, ctor in (("KmerIter", "iter_kmers"), ("KmerExtsIter", "iter_kmer_exts")):
             pre = "<%s<'_, %s, %s> as std::iter::Iterator>::" % (iname, kty, CONT)
-            meths = sorted(k[len(pre):] for k in F.insts if k.startswith(pre))
+            # (closures inside a method are part of that method, not overridden methods of their own)
+            meths = sorted(k[len(pre):] for k in F.insts if k.startswith(pre) and "{closure" not in k[len(pre):] and "::" not in k[len(pre):])
             ckey = "<%s as Vmer>::%s::<%s>" % (CONT, ctor, kty)
             ext_vals = (None,) if iname == "KmerIter" else (0x00, 0x21, 0x63, 0xff)
             for n in sorted({max(K - 1, 0), K, K + 1, K + 3}):
